@@ -46,6 +46,12 @@ class RecFile:
         self._rec.writes.append((self._f.tell(), bytes(b)))
         return self._f.write(b)
 
+    def truncate(self, size=None):
+        # changes the file's content (cut, or extension with zeros): one step of the write sequence
+        size = self._f.tell() if size is None else size
+        self._rec.writes.append((("truncate", int(size)), b""))
+        return self._f.truncate(size)
+
     def __getattr__(self, item):
         return getattr(self._f, item)
 
@@ -76,6 +82,12 @@ def image(writes, n_full, partial=None):
     buf = bytearray()
 
     def put(off, data):
+        if isinstance(off, tuple):      # ("truncate", size)
+            if off[1] > len(buf):
+                buf.extend(bytes(off[1] - len(buf)))
+            else:
+                del buf[off[1]:]
+            return
         if off > len(buf):
             buf.extend(bytes(off - len(buf)))
         buf[off:off + len(data)] = data
@@ -129,11 +141,11 @@ def same(a, b):
     return a == b
 
 
-def results_on(path):
+def results_on(path, preload=False):
     from seismic_zfp.read import SgzReader
     res = {}
     try:
-        r = SgzReader(path)
+        r = SgzReader(path, preload=preload)
     except Exception as e:
         return None, e
     try:
@@ -156,6 +168,8 @@ def stage_of(writes, n_full, total_len):
     off, data = writes[min(n_full, len(writes) - 1)]
     if n_full >= len(writes):
         return "complete"
+    if isinstance(off, tuple):
+        return "truncate"
     if off < 8192 and len(data) <= 1100:
         return "patch"
     return "block-or-footer"
@@ -172,6 +186,9 @@ def check_images(case, ctx, writes, final_path, d):
     for name, (o, v) in ref.items():
         if o != "ok":
             raise Violation("complete-file-read-failed", f"{name}: {v!r}")
+    ref_pl, err = results_on(final_path, preload=True)
+    if ref_pl is None or any(o != "ok" or not same(v, ref[name][1]) for name, (o, v) in ref_pl.items()):
+        raise Violation("complete-file-preload-differs", repr(err))
     points = []
     for k in range(len(writes) + 1):
         points.append(("prefix", k, None))
@@ -193,17 +210,20 @@ def check_images(case, ctx, writes, final_path, d):
     only = case.get("only_point")
     p = os.path.join(d, "partial.sgz")
     n_eval = 0
-    for pt in points:
+    for pi, pt in enumerate(points):
         if only is not None and list(pt) != list(only):
             continue
+        # the reader option preload alternates over the crash points (offset drawn per case)
+        preload = bool(case["point_preload"]) if only is not None and "point_preload" in case else bool((pi + case.get("pl", 0)) % 2)
         kind, k, part = pt
         img = final[:k] if kind == "length" else image(writes, k, part)
         with open(p, "wb") as f:
             f.write(img)
         case["point"] = list(pt)
+        case["point_preload"] = preload
         case["obs"] = {"hash_present": img[960:980] == final[960:980] and len(img) >= 980}
         ctx.mark_current(case)
-        res, err = results_on(p)
+        res, err = results_on(p, preload=preload)
         n_eval += 1
         if kind == "length":
             where = "header" if k < 8192 else "body"
@@ -218,7 +238,7 @@ def check_images(case, ctx, writes, final_path, d):
             if not same(v, ref[name][1]):
                 mname = name.split("(")[0]
                 vio = Violation(f"partial-file-differs:{mname}",
-                                f"{case['route']}: image at {pt} ({len(img)} of {len(final)} bytes): {name} returned a value "
+                                f"{case['route']}: image at {pt} ({len(img)} of {len(final)} bytes), preload={preload}: {name} returned a value "
                                 f"that differs from the complete file's")
                 kid = ctx.known.match(ctx.open_known, ctx.prop, case, vio)
                 if kid is not None:
@@ -226,7 +246,7 @@ def check_images(case, ctx, writes, final_path, d):
                     continue
                 raise vio
             if 0 < len(img) < len(final):
-                ctx.sigs.add(f"{case['route']}:{kind}:{where}:{name.split('(')[0]}")
+                ctx.sigs.add(f"{case['route']}:{kind}:{where}:{name.split('(')[0]}:{'preload' if preload else 'lazy'}")
         ctx.labels[f"{kind}:{where}"] += 1
     ctx.evaluations += max(0, n_eval - 1)
     ctx.extra["crash_points"] = ctx.extra.get("crash_points", 0) + n_eval
@@ -237,7 +257,7 @@ def check_images(case, ctx, writes, final_path, d):
 def cases(draw):
     route = draw(st.sampled_from(["numpy", "segy", "segy", "irregular", "2d", "crop", "reblock"]))
     c = {"route": route, "mode": draw(st.sampled_from(["heuristic", "thorough", "exhaustive", "strip"])),
-         "stride": draw(st.integers(1500, 6000)), "values": draw(gen.values_spec)}
+         "stride": draw(st.integers(1500, 6000)), "values": draw(gen.values_spec), "pl": draw(st.integers(0, 1))}
     if route == "irregular" and c["mode"] == "strip":
         c["mode"] = "thorough"
     if route == "2d":
@@ -300,6 +320,7 @@ def run_case(case, ctx):
         writes = record(lambda: conv.segy_convert(S.path, out, rate, bs, header_detection=case["mode"]))
     n = check_images(case, ctx, writes, out, d)
     case.pop("point", None)
+    case.pop("point_preload", None)
     case.pop("obs", None)
     case["n_writes"], case["crash_points_evaluated"] = len(writes), n
     return {"sig": ["run", route, case["mode"], case["setting"], len(writes)], "labels": [route, case["mode"], f"writes={min(len(writes), 20)}"]}
